@@ -18,12 +18,6 @@ def Op.spec (m : Map) : Op → Map
   | .set k v => m.update k.norm v
   | .reset k v => (m.reset k.norm v).1
 
-/-- `Table.Reset` with a non-nil value searches the hash part without normalising an
-    integer-valued float key; histories are restricted to keys in normal form there -/
-def Op.normalReset : Op → Prop
-  | .reset k (some _) => k.norm = k
-  | _ => True
-
 section
 variable (hash : Key → Nat)
 
@@ -48,7 +42,7 @@ theorem step_inv (hins : HashedInsertOK hash) (hmig : ArrayMigrationOK hash) (t 
       obtain ⟨t', e, i, _, _⟩ := remove_spec hash t inv k
       exact ⟨t', by simp [step, tset, e], i⟩
     | some v =>
-      obtain ⟨t', e, i, _⟩ := insert_spec hash hins hmig t inv k v
+      obtain ⟨t', e, i, _, _⟩ := insert_spec hash hins hmig t inv k v
       exact ⟨t', by simp [step, tset, e], i⟩
   | reset k v =>
     cases v with
@@ -60,7 +54,7 @@ theorem step_inv (hins : HashedInsertOK hash) (hmig : ArrayMigrationOK hash) (t 
       exact ⟨t', by simp [step, treset, e], i⟩
 
 theorem step_refines (hins : HashedInsertOK hash) (hmig : ArrayMigrationOK hash) (t : Mixed) (inv : Inv hash t)
-    (op : Op) (hop : op.normalReset) :
+    (op : Op) :
     ∃ t', step hash t op = some t' ∧ Inv hash t' ∧ ∀ k, abs t' k = op.spec (abs t) k := by
   cases op with
   | set k v =>
@@ -69,7 +63,7 @@ theorem step_refines (hins : HashedInsertOK hash) (hmig : ArrayMigrationOK hash)
       obtain ⟨t', e, i, a, _⟩ := remove_spec hash t inv k
       exact ⟨t', by simp [step, tset, e], i, fun k' => by rw [a k']; rfl⟩
     | some v =>
-      obtain ⟨t', e, i, a⟩ := insert_spec hash hins hmig t inv k v
+      obtain ⟨t', e, i, a, _⟩ := insert_spec hash hins hmig t inv k v
       exact ⟨t', by simp [step, tset, e], i, fun k' => by rw [a k']; rfl⟩
   | reset k v =>
     cases v with
@@ -88,12 +82,11 @@ theorem step_refines (hins : HashedInsertOK hash) (hmig : ArrayMigrationOK hash)
           | some x => simp [h] at hs
         · rfl
     | some v =>
-      have hk : k.norm = k := hop
-      obtain ⟨t', e, i, a, _⟩ := reset_spec hash t inv k hk v
+      obtain ⟨t', e, i, a, _⟩ := reset_spec hash t inv k v
       refine ⟨t', by simp [step, treset, e], i, fun k' => ?_⟩
       rw [a k']
-      simp only [Op.spec, Map.reset, hk]
-      by_cases hs : (abs t k).isSome = true
+      simp only [Op.spec, Map.reset]
+      by_cases hs : (abs t k.norm).isSome = true
       · simp [hs, Map.update]
       · simp [hs]
 
@@ -108,15 +101,14 @@ theorem run_inv (hins : HashedInsertOK hash) (hmig : ArrayMigrationOK hash) (ops
     obtain ⟨t', e', i'⟩ := ih t1 i1
     exact ⟨t', by simp [run, e1, e'], i'⟩
 
-theorem run_refines (hins : HashedInsertOK hash) (hmig : ArrayMigrationOK hash) (ops : List Op)
-    (hops : ∀ op ∈ ops, op.normalReset) :
+theorem run_refines (hins : HashedInsertOK hash) (hmig : ArrayMigrationOK hash) (ops : List Op) :
     ∀ t, Inv hash t → ∃ t', run hash t ops = some t' ∧ Inv hash t' ∧ ∀ k, abs t' k = specRun (abs t) ops k := by
   induction ops with
   | nil => intro t inv; exact ⟨t, rfl, inv, fun _ => rfl⟩
   | cons op ops ih =>
     intro t inv
-    obtain ⟨t1, e1, i1, a1⟩ := step_refines hash hins hmig t inv op (hops op List.mem_cons_self)
-    obtain ⟨t', e', i', a'⟩ := ih (fun o ho => hops o (List.mem_cons_of_mem _ ho)) t1 i1
+    obtain ⟨t1, e1, i1, a1⟩ := step_refines hash hins hmig t inv op
+    obtain ⟨t', e', i', a'⟩ := ih t1 i1
     refine ⟨t', by simp [run, e1, e'], i', fun k => ?_⟩
     rw [a' k]
     have : abs t1 = op.spec (abs t) := funext a1
